@@ -350,6 +350,134 @@ def bgp_classes():
             add('frame_4096_4097', cd, [E.update([], BASE_ATTRS(), nl).d])
     return out
 
+# ------------------------------------------------------------------ decoder state across calls (round 4)
+# The receive loop calls the decoder again and again on ONE decoder object; anything the object remembers
+# from an earlier call (a cached frame length, a "header already checked" flag) must not change how later
+# bytes are framed.  These classes make a frame whose length is read BEFORE its body has arrived reach the
+# decoder in several pieces and then continue the stream with further frames: [big, KEEPALIVE, UPDATE, big,
+# KEEPALIVE], cut at every position of the small frames and at a ladder of positions inside the big ones,
+# and fed byte-wise / in 7-octet / in 4096-octet reads.
+def big_update(L, blob=False):
+    """a valid UPDATE of exactly L octets: many /24 prefixes, or (blob) one unknown optional transitive
+    attribute with extended length carrying the bulk (cheap to decode: used for the 64K frames)"""
+    base = len(cat(BASE_ATTRS()))
+    if blob:
+        n = L - 19 - 4 - base - 4 - 4
+        d = E.update([], BASE_ATTRS() + [E.attr(0xc0, 99, [L & 0xff] * n, force_ext=True)], NL).d
+    else:
+        room = L - 19 - 4 - base
+        n = room // 4
+        pad = room - 4 * n
+        nl = [E.prefix(24, [10, i & 0xff, (i >> 8) & 0xff]) for i in range(n)] + ([E.prefix(8 * (pad - 1), fill(pad - 1))] if pad else [])
+        d = E.update([], BASE_ATTRS(), nl).d
+    assert len(d) == L, (len(d), L)
+    return d
+
+def chunks_of(data, n):
+    return [data[i:i + n] for i in range(0, len(data), n)]
+
+def ladder(L):
+    return sorted(set(p for p in (1, 18, 19, 20, 4095, 4096, 4097, L - 1) if 0 < p < L))
+
+def state_classes():
+    out = []
+    def add(cls, cd, chunks): out.append({'k': 'bgp', 'codec': cd, 'chunks': chunks, 'cls': 'bgp_state_' + cls})
+    CX = codec(ext=True)
+    k = E.keepalive().d
+    a = E.update([E.prefix(8, [9])], BASE_ATTRS(), NL).d
+    small = k + a + k
+    for cd, sizes in ((CX, ((4097, True), (4097, False), (5000, True), (65535, True), (4096, True))), (C4, ((4096, True), (4096, False)))):
+        tag = 'ext' if cd['ext'] else 'plain'
+        for L, blob in sizes:
+            big = big_update(L, blob)
+            stream = big + k + a + big + k if L < 6000 else big + k + a + k
+            second = len(big) + len(k) + len(a)
+            # the big frame arrives in two pieces (ladder of cut positions), the rest of the stream follows
+            for p in (ladder(L) if L < 6000 else (19, 4097, L - 1)):
+                add('%s_big_cut_ladder' % tag, cd, [stream[:p], stream[p:]])
+                if L > 6000 and p != 4097:
+                    continue        # a 64K frame costs the model about 20 s (its value is printed): four cases
+                add('%s_big_cut_ladder' % tag, cd, [stream[:p], stream[p:L], stream[L:]])
+                if L < 6000:
+                    add('%s_second_big_cut_ladder' % tag, cd, [stream[:second + p], stream[second + p:]])
+                add('%s_keepalive_then_big_cut_ladder' % tag, cd, [k + big[:p], big[p:] + k])
+            # whole stream in fixed-size reads
+            if not blob:
+                continue        # the frame made of a thousand prefixes: ladder only (the model is slow on long literals)
+            for n in ((4096,) if L > 6000 else (7, 4096)):
+                add('%s_stream_reads_of_%d' % (tag, n), cd, chunks_of(stream, n))
+            if L in (4096, 4097):
+                # octet by octet (quadratic in the model: one big frame, then the small ones)
+                add('%s_stream_reads_of_1' % tag, cd, chunks_of(big + small, 1))
+        # after a big frame that came in two pieces: the small frames cut at every position
+        L = 4097 if cd['ext'] else 4096
+        big = big_update(L, True)
+        for cut in range(0, len(small) + 1):
+            add('%s_small_after_big_every_cut' % tag, cd, [big[:20], big[20:] + small[:cut], small[cut:] + big[:19], big[19:] + k])
+        # an incomplete big frame is pending when the stream ends / an error frame follows a reassembled big frame
+        add('%s_big_never_completes' % tag, cd, [big[:19], big[19:L - 1]])
+        bad = [0xff] * 16 + [0, 5, 4]
+        add('%s_error_after_big' % tag, cd, [big[:100], big[100:] + bad, k])
+        add('%s_error_after_big' % tag, cd, [big[:100], big[100:], k + bad])
+    # a length above the session limit in a header that arrives in pieces (must be rejected at once, not cached)
+    for cd, L in ((C4, 4097), (C4, 65535), (CX, 65535)):
+        h = [0xff] * 16 + be(L, 2) + [2]
+        for p in (1, 16, 17, 18):
+            add('limit_header_in_pieces', cd, [h[:p], h[p:] + fill(40), k])
+        # ... and after a frame that itself came in two pieces (nothing learnt while waiting may relax the check)
+        for p in (19, 20, len(a) - 1):
+            add('limit_after_partial_frame', cd, [a[:p], a[p:] + h + fill(40), k])
+            add('limit_after_partial_frame', cd, [a[:p], a[p:], h[:10], h[10:] + fill(40), k])
+    # header length below 19 after a frame that came in pieces
+    for cd in (C4, CX):
+        for Lb in (0, 18):
+            h = [0xff] * 16 + be(Lb, 2) + [4]
+            add('short_header_after_partial_frame', cd, [a[:30], a[30:] + h, k])
+    return out
+
+def rtr_state_classes():
+    """RtrCodec::decode reads the 32-bit length before the PDU is complete: PDUs much longer than one read
+    (skipped Router Key / long Error Report), arriving in pieces, followed by ordinary PDUs"""
+    out = []
+    def add(cls, chunks): out.append({'k': 'rtr', 'chunks': chunks, 'cls': 'rtr_state_' + cls})
+    reset = rtr_hdr(1, 2, 0, 8)
+    v4 = rtr_hdr(1, 4, 0, 20) + [1, 24, 24, 0, 10, 0, 0, 0] + be(65001, 4)
+    eod = rtr_hdr(1, 7, 5, 24) + be(77, 4) + be(3600, 4) + be(600, 4) + be(7200, 4)
+    for ty, L in ((9, 5000), (10, 4097), (10, 300), (4, 5000), (9, 65535)):
+        bigp = rtr_hdr(1, ty, 1, L) + (fill(L - 8, ty) if L < 1000 else fill(40, ty) + [ty] * (L - 48))
+        stream = bigp + v4 + reset + bigp + eod if L < 6000 else bigp + v4 + reset + eod
+        for p in sorted(set(q for q in (1, 4, 7, 8, 9, 12, 20, 4095, 4096, 4097, L - 1) if 0 < q < L)):
+            add('big_cut_ladder', [stream[:p], stream[p:]])
+            add('big_cut_ladder', [stream[:p], stream[p:L], stream[L:]])
+            if L < 6000:
+                add('second_big_cut_ladder', [stream[:L + 28 + p], stream[L + 28 + p:]])
+        for n in ((4096, 1500) if L > 6000 else (7, 4096)):
+            add('stream_reads_of_%d' % n, chunks_of(stream, n))
+        if L in (300, 4097):
+            add('stream_reads_of_1', chunks_of(bigp + v4 + reset + eod, 1))
+    bigp = rtr_hdr(1, 9, 1, 300) + fill(292, 9)
+    small = v4 + reset + eod
+    for cut in range(0, len(small) + 1):
+        add('small_after_big_every_cut', [bigp[:9], bigp[9:] + small[:cut], small[cut:] + bigp[:8], bigp[8:] + reset])
+    return out
+
+def bfd_state_classes():
+    """bfd::Message::decode is an associated function on one datagram (no decoder object): the length octet
+    announces more / less than the datagram holds, at every size, and the same datagram is decoded again
+    after a longer and after a shorter one (the harness decodes all cases in one process)"""
+    out = []
+    def add(cls, b): out.append({'k': 'bfd', 'bytes': b, 'cls': 'bfd_state_' + cls})
+    for announced in (24, 48, 255):
+        for have in range(0, 50):
+            b = ([0x20, 0xc0, 3, announced] + fill(60))[:have]
+            add('length_announced_vs_datagram', b)
+    good = [0x20, 0xc0, 3, 24] + fill(20)
+    long_ = [0x20, 0xc0, 3, 255] + fill(251)
+    for seq in ((long_[:100], good), (good, long_, good), (good[:10], good)):
+        for b in seq:
+            add('repeat_after_other_datagram', list(b))
+    return out
+
 
 # ------------------------------------------------------------------ EVPN, RTC, SR policy, flowspec (modelled since round 3)
 def mp_update(fam, nlris, reach=True, ap=False):
@@ -588,4 +716,5 @@ def family_classes():
     return out
 
 def enum_cases():
-    return bfd_classes() + rtr_classes() + bgp_classes() + family_classes()
+    return (bfd_classes() + rtr_classes() + bgp_classes() + family_classes()
+            + state_classes() + rtr_state_classes() + bfd_state_classes())
